@@ -466,6 +466,9 @@ def _handler_appends_none(fa, handler, read_call):
                     if leaves and all(A.is_none(e) for (e, _) in leaves):
                         appends.append(i)
         if not appends:
+            if _slot_stays_none(fa, A0, hn, heads, read_call, loop):
+                ok = True
+                continue
             return False
         # without those appends, neither the loop head (next element), the exit nor a raise is reachable
         stops = set(appends)
@@ -477,6 +480,47 @@ def _handler_appends_none(fa, handler, read_call):
             return False
         ok = True
     return ok
+
+
+def _slot_stays_none(fa, A0, hn, heads, read_call, loop):
+    """The pre-allocated spelling of "append None": the answer list is created with one None per element
+    (`[None] * len(xs)`, `[None for _ in xs]`), the read is stored straight into its slot (`answers[i] = read(...)`),
+    and on the handler's way to the next element / the end nothing is stored into the list and nothing raises or
+    returns — so the slot of an unreadable element still holds None."""
+    st = fa.stmt_of(read_call)
+    if not (isinstance(st, ast.Assign) and st.value is read_call and len(st.targets) == 1 and isinstance(st.targets[0], ast.Subscript)
+            and isinstance(st.targets[0].value, ast.Name) and loop is not None):
+        return False
+    lst = st.targets[0].value.id
+
+    def all_none(e):
+        if isinstance(e, ast.BinOp) and isinstance(e.op, ast.Mult):
+            return any(isinstance(x, ast.List) and len(x.elts) == 1 and A.is_none(x.elts[0]) for x in (e.left, e.right))
+        if isinstance(e, ast.ListComp):
+            return A.is_none(e.elt) and not any(g.ifs for g in e.generators)
+        return False
+    defs = [d for i in fa.nodes(st) for d in fa.df.reaching(i, lst)]
+    if not defs or not all(d.kind == "assign" and d.value is not None and all_none(d.value) and not fa.inside(d.stmt or d.value, loop) for d in defs):
+        return False
+    r = fa.cfg.reach([hn], removed=heads)
+    for i in r:
+        nd = fa.cfg.node(i)
+        if nd.kind == "stmt" and isinstance(nd.ast, ast.Raise):
+            return False
+        if nd.kind == "stmt" and isinstance(nd.ast, ast.Return) and fa.inside(nd.ast, loop):
+            return False
+        if nd.kind == "stmt" and nd.ast is not None:
+            for x in A.walk_local(nd.ast):
+                if isinstance(x, ast.Subscript) and isinstance(x.ctx, (ast.Store, ast.Del)) and isinstance(x.value, ast.Name) and x.value.id == lst:
+                    return False
+                if isinstance(x, ast.Call) and isinstance(x.func, ast.Attribute) and isinstance(x.func.value, ast.Name) and x.func.value.id == lst \
+                        and x.func.attr not in ("count", "index", "copy"):
+                    return False
+    # ... and that list is what the function returns
+    rets = [(rt, i) for rt in fa.returns() if rt.value is not None for i in fa.nodes(rt)]
+    return bool(rets) and all(isinstance(x, ast.Name) and x.id == lst or (isinstance(x, ast.Call) and A.call_attr(x) in ("list", "tuple") and len(x.args) == 1
+                                                                           and isinstance(x.args[0], ast.Name) and x.args[0].id == lst)
+                              for (rt, i) in rets for x in [rt.value])
 
 
 def _is_returned_element(fa, A0, call):
@@ -814,6 +858,88 @@ def check_recovery(ck):
               "%s does not branch on valid_result" % qual, f.where())
 
 
+def _requires_every(fa, sources):
+    """Does the function answer True only when EVERY validity answer obtained from `sources` (method names) is
+    True?  Decided on the answers, not on the spelling: `all(<answers>)`, `False not in <answers>`, or a loop over
+    the answers (or over the keys, asking per key) in which an invalid element leads to `return False` on every
+    path, the positive answer being given only after that loop.  -> (ok, reason)"""
+    A0 = Assume(fa, lambda e: None)
+    SRC = {"call:" + s_ for s_ in sources}
+
+    def from_src(e, n):
+        try:
+            return bool(SRC & fa.df.deps(e, n))
+        except Exception:  # noqa - an expression without a node
+            return False
+
+    def is_false(e):
+        return isinstance(e, ast.Constant) and e.value is False
+
+    # loops in which an invalid element forces the answer False
+    strict_heads = []
+    for lp in fa.stmts(ast.For):
+        heads = [h for h in fa.cfg.nodes_of(lp) if h in fa.cfg.reachable_nodes()]
+        if not heads:
+            continue
+        tnames = {x.id for x in ast.walk(lp.target) if isinstance(x, ast.Name)}
+        over_answers = from_src(lp.iter, heads[0])
+
+        def atom(e, tnames=tnames, over_answers=over_answers):
+            if over_answers and isinstance(e, ast.Name) and e.id in tnames:
+                return False
+            if isinstance(e, ast.Call) and A.call_attr(e) in sources and not over_answers:
+                return False
+            return None
+        asm = Assume(fa, atom)
+        hit = any(n.kind == "test" and fa.inside(n.ast, lp) and asm.truth(n.ast, n.id) is not None for n in fa.cfg.nodes if n.ast is not None)
+        if not hit:
+            continue
+        ok = True
+        for h in heads:
+            starts = [d for (d, l) in fa.cfg.succ[h] if l == "T"]
+            # this iteration and whatever follows the loop, without entering the loop head again
+            IN = asm.flow({st_: set(fa.df.IN[st_]) for st_ in starts}, removed={h})
+            region = set(IN)
+            if any(d == h and asm.edge_ok(n_, d, l) for n_ in region for (d, l) in fa.cfg.succ[n_]):
+                ok = False          # the next element is looked at: this one did not decide
+            for i in region:
+                nd = fa.cfg.node(i)
+                if nd.kind == "stmt" and isinstance(nd.ast, ast.Return):
+                    leaves = asm.cases(nd.ast.value, i, IN) if nd.ast.value is not None else []
+                    if not leaves or not all(is_false(x) or asm.truth(x, m) is False for (x, m) in leaves):
+                        ok = False
+        if ok:
+            strict_heads += heads
+    seen_source = False
+    for r in fa.returns():
+        for i in fa.nodes(r):
+            for (leaf, n) in (A0.cases(r.value, i, fa.df.IN) if r.value is not None else [(None, i)]):
+                if leaf is not None and is_false(leaf):
+                    continue
+                if isinstance(leaf, ast.Call) and isinstance(leaf.func, ast.Name) and leaf.func.id == "all" and len(leaf.args) == 1 and from_src(leaf.args[0], n):
+                    seen_source = True
+                    continue
+                neg_in = leaf
+                if isinstance(neg_in, ast.UnaryOp) and isinstance(neg_in.op, ast.Not) and isinstance(neg_in.operand, ast.Compare) \
+                        and len(neg_in.operand.ops) == 1 and isinstance(neg_in.operand.ops[0], ast.In):
+                    neg_in = ast.Compare(left=neg_in.operand.left, ops=[ast.NotIn()], comparators=neg_in.operand.comparators)
+                if isinstance(neg_in, ast.Compare) and len(neg_in.ops) == 1 and isinstance(neg_in.ops[0], ast.NotIn) and is_false(neg_in.left) \
+                        and from_src(neg_in.comparators[0], n):
+                    seen_source = True
+                    continue
+                if isinstance(leaf, ast.Constant) and leaf.value is True and strict_heads and fa.cfg.must_pass(strict_heads, i):
+                    seen_source = True
+                    continue
+                weak = leaf is None or not from_src(leaf, n) or isinstance(leaf, (ast.Constant, ast.Subscript, ast.BoolOp)) or (
+                    isinstance(leaf, ast.Call) and isinstance(leaf.func, ast.Name) and leaf.func.id in ("any", "bool", "len")) or (
+                    isinstance(leaf, ast.Compare) and isinstance(leaf.ops[0], ast.In))
+                if not weak:
+                    from ..loader import AnalysisError
+                    raise AnalysisError("%s: cannot decide whether the answer `%s` requires every pointer to be valid" % (fa.qual, A.short(leaf, 60)))
+                return False, "it can answer `%s`, which does not require every pointer to be valid" % A.short(leaf, 50)
+    return seen_source, "its answer does not derive from the validated existence test"
+
+
 def check_readers_validate(ck):
     R = "C08.R4"
     ck.rule(R, "readers validate: exists_nonversioned tests the pointer and the path it contains; presence queries "
@@ -893,9 +1019,9 @@ def check_readers_validate(ck):
     ck.ob(R, ae.key(None), oka, "bulk existence goes through exists_nonversioned" if oka else
           "all_exist_nonversioned bypasses exists_nonversioned", ae.where())
     am = FA(ck, "storage_base.DataSourceMetadataSource.all_mementos_exist")
-    okm = bool(am.calls("all_exist_nonversioned")) and bool(am.calls("all"))
+    okm, whym = _requires_every(am, ("all_exist_nonversioned", "exists_nonversioned"))
     ck.ob(R, am.key(None), okm, "memento presence = all pointers valid" if okm else
-          "all_mementos_exist does not require every memento pointer to be valid", am.where())
+          "all_mementos_exist does not require every memento pointer to be valid: " + whym, am.where())
     im = FA(ck, "storage_base.StorageBackendBase.is_memoized")
     oki = any(A.call_attr(c) == "all_mementos_exist" for c in im.calls())
     ck.ob(R, im.key(None), oki, "is_memoized falls back to the validated presence test" if oki else
